@@ -20,7 +20,9 @@ CLAIMS = {
         design_ref="DESIGN.md §6 C02",
         text="Necessary-condition lints excluding five deadlock shapes on all paths: unowed blocking wait on the results "
              "queue, feeder flag not cleared on every exit, pause without resume, blocking operation under the results "
-             "lock, consumer loop that does not re-test after every batch. Each shape is a deadlock for some schedule; "
+             "lock, consumer loop that does not re-test after every batch; the resume of a paused feeder is evaluated in the "
+             "drained state (empty reorder buffer, event clear, finite bounds); the sent counter is reset per call and only "
+             "the stop event ends the feeding. Each shape is a deadlock for some schedule; "
              "absence of the shapes is not a termination proof (no ranking function).",
         level_note=STATIC_BASE + "queue call classification (blocking / non-blocking / bounded) is the table of appendix B.",
         technique="static analysis: blocking-wait ownership, lock regions, post-dominance over the ast"),
@@ -36,7 +38,8 @@ CLAIMS = {
         design_ref="DESIGN.md §6 C04",
         text="Exact for the ordering clauses (single end() call site in the finally of the try containing begin() and "
              "every work get; single begin() outside loops dominating every get; ready event set only after begin, never "
-             "cleared afterwards), ordering abstraction of the quota guard (quota > 0 over all orderings), one decrement "
+             "cleared afterwards; until_all_ready reaches the wait loop over every element of self.procs on every path), "
+             "ordering abstraction of the quota guard (quota > 0 over all orderings), one decrement "
              "per processed chunk, one sentinel per worker + join of every worker before manager shutdown.",
         level_note=STATIC_BASE + "behaviour with join_timeout is excluded by the property; delivery of one sentinel per "
                    "worker by multiprocessing is trusted.",
@@ -77,7 +80,9 @@ CLAIMS = {
     "C09": dict(
         design_ref="DESIGN.md §6 C09",
         text="Constructors accept empty input (may-be-empty flow with dominating emptiness tests), initial keys are "
-             "de-duplicated (taint flow to the key storage, last-wins for the map), unorderable probe reports absent "
+             "de-duplicated (taint flow to the key storage, truth table of the adjacent-inequality guard, last-wins for the map), "
+             "fixed-position accesses of the storage in every method are guarded (KeyError, not IndexError, on empty), "
+             "unorderable probe reports absent "
              "(TypeError at the bisect site cannot escape the probing entry points), parallel arrays keys/values mutated "
              "together at the same index, index provenance from insertions_index of the same key, key validation.",
         level_note=STATIC_BASE + "bisect_left on a sorted list is trusted (delegation), so sortedness itself is a "
@@ -105,7 +110,8 @@ CLAIMS = {
         text="List semantics by delegation (mutators apply the corresponding list operation to _lines with the unmodified "
              "index), tagged-union discipline (stores into _lines dominated by isinstance(str) tests), dirty flag written "
              "by every mutator and initialised False/True as stated, save writes each line of the current view once with "
-             "the chosen ending, source read-only (who-may-write).",
+             "the chosen ending, source read-only (who-may-write), and the offset/content table the classes build themselves is a "
+             "list (it must accept str entries and insertion).",
         level_note=STATIC_BASE + "equality with a list model over edit histories follows from delegation + list semantics "
                    "and is not re-proved.",
         technique="static analysis: delegation/value-flow rules, dominators, who-may-write query"),
@@ -121,7 +127,8 @@ CLAIMS = {
         design_ref="DESIGN.md §6 C14",
         text="Shared-state writes under the lock, write-flush-then-publish order in __setitem__ with the offset taken "
              "before the write, duplicate check dominating every effect, iteration over the identifier space rather than "
-             "the count, reset agreement of flush(), counter discipline, reader guards and seek-before-read.",
+             "the count, reset agreement of flush(), counter discipline, reader guards and seek-before-read, append mode when a "
+             "registered writer re-opens its file, and no closed handle left in a cache field on any path of close().",
         level_note=STATIC_BASE + "cross-process visibility of Manager proxies/Value and file-system append atomicity trusted.",
         technique="static analysis: lock regions, must-precede ordering, value-flow, reset agreement"),
     "C15": dict(
@@ -179,7 +186,9 @@ CLAIMS = {
         text="Exact decomposition of 'however the context is left': cleanup in __exit__ is unconditional and precedes "
              "anything that can fail, every acquisition is registered (created name appended and returned, handle closed; "
              "one handle per given path), cleanup covers the registry (each path removed tolerating FileNotFoundError, "
-             "registry replaced by the right kind; FilePool.close closes every handle).",
+             "registry replaced by the right kind; __enter__ may replace the registry only by a manager list seeded with the "
+             "registered paths and only for a multi_proc pool; remove deletes before it unregisters; FilePool.close closes "
+             "every handle).",
         level_note=STATIC_BASE + "os.remove/close raising midway and distinctness of tempfile names not decided.",
         technique="static analysis: all-paths typestate on __exit__, value-flow of acquisitions, registry coverage"),
 }
